@@ -200,6 +200,47 @@ fn privacy_programs() -> Vec<(String, bool, String)> {
     out
 }
 
+/// programs in which a local named like an importable function is used; every program must yield 7 (the local adds one
+/// to 6; the imported / sibling function would multiply by 100)
+fn shadow_programs() -> Vec<(String, f64, String)> {
+    let mut out = vec![];
+    let inners: [(&str, &str); 5] = [
+        ("no inner scope", "let a = 6.0"),
+        ("a lambda parameter re-binds the name", "let a = (|NAME| NAME * 2.0)(3.0)"),
+        ("two nested lambda parameters re-bind the name", "let a = (|NAME| (|NAME| NAME * 2.0)(NAME))(3.0)"),
+        ("a lambda with another parameter", "let a = (|q| q * 2.0)(3.0)"),
+        ("a lambda parameter re-binds the name, used through a helper", "let a = apply(|NAME| NAME * 2.0, 3.0)"),
+    ];
+    let routes: [(&str, &str); 2] = [
+        ("use alias", "mod fx {\n    pub fn NAME(v) { v * 100.0 }\n}\nuse fx::NAME\n"),
+        ("wildcard import", "mod fx {\n    pub fn NAME(v) { v * 100.0 }\n}\nuse fx::*\n"),
+    ];
+    let helper = "fn apply(f, v) {\n    f(v)\n}\n";
+    for name in ["gain", "level"] {
+        for (rdesc, route) in routes {
+            for (idesc, inner) in inners {
+                // the local is a `let`
+                let src = format!("{route}{helper}fn dsp() {{\n    let NAME = |v| v + 1.0\n    {inner}\n    NAME(a)\n}}\n").replace("NAME", name);
+                out.push((src, 7.0, format!("let-bound local `{name}` vs {rdesc}; {idesc}")));
+                // the local is a parameter
+                let src = format!("{route}{helper}fn run(NAME) {{\n    {inner}\n    NAME(a)\n}}\nfn dsp() {{\n    run(|v| v + 1.0)\n}}\n").replace("NAME", name);
+                out.push((src, 7.0, format!("parameter `{name}` vs {rdesc}; {idesc}")));
+            }
+        }
+        // a sibling function of the enclosing module
+        for (idesc, inner) in inners {
+            if inner.contains("apply") { continue; }
+            let src = format!("mod m {{\n    pub fn NAME(v) {{ v * 100.0 }}\n    pub fn run(NAME) {{\n        {inner}\n        NAME(a)\n    }}\n}}\nfn dsp() {{\n    m::run(|v| v + 1.0)\n}}\n").replace("NAME", name);
+            out.push((src, 7.0, format!("parameter `{name}` vs a sibling function of the module; {idesc}")));
+            let src = format!("mod m {{\n    pub fn NAME(v) {{ v * 100.0 }}\n    pub fn run() {{\n        let NAME = |v| v + 1.0\n        {inner}\n        NAME(a)\n    }}\n}}\nfn dsp() {{\n    m::run()\n}}\n").replace("NAME", name);
+            out.push((src, 7.0, format!("let-bound local `{name}` vs a sibling function of the module; {idesc}")));
+        }
+    }
+    // a float local (no function value involved)
+    out.push(("mod fx {\n    pub fn gain(v) { v * 100.0 }\n}\nuse fx::*\nfn dsp() {\n    let gain = 6.5\n    let y = (|gain| gain * 2.0)(0.25)\n    gain + y\n}\n".to_string(), 7.0, "float local vs wildcard import; a lambda parameter re-binds the name".into()));
+    out
+}
+
 // ---- scheduler (property C11): the WASM-side handle driven sample by sample --------------------------------
 /// schedule `tasks` (time, id) from "sample 0 global scope", then run samples 1..=last; returns the first
 /// violated clause of the per-sample contract
@@ -1129,6 +1170,31 @@ fn main() {
             }
         }
         println!("NONE tried={}", sched_cases().len());
+        return;
+    }
+    if args.get(1).map(|s| s.as_str()) == Some("shadow-search") || args.get(1).map(|s| s.as_str()) == Some("shadow-run") {
+        // property C17, shadowing clause: a local binding (let / parameter) wins over an imported or sibling name, also
+        // after an inner scope that re-bound the same name has been closed
+        let progs = shadow_programs();
+        let only: Option<usize> = args.get(2).and_then(|s| s.parse().ok());
+        for (i, (src, want, desc)) in progs.iter().enumerate() {
+            if let Some(o) = only { if o != i { continue; } }
+            let prev = std::panic::take_hook();
+            std::panic::set_hook(Box::new(|_| {}));
+            let r = std::panic::catch_unwind(|| run_vm(src, 1));
+            std::panic::set_hook(prev);
+            let got = match r { Ok(Ok(v)) => format!("{:?}", v), Ok(Err(e)) => format!("rejected: {e}"), Err(_) => "VM panic".to_string() };
+            let bad = got != format!("[{want:?}]");
+            if args[1] == "shadow-run" {
+                println!("{} index={i} program={desc:?} output={got} expected=[{want:?}]", if bad { "FAILS" } else { "HOLDS" });
+                return;
+            }
+            if bad {
+                println!("FOUND index={i} value={desc:?} clause=C17[a local binding shadows an imported / sibling name] output={got} expected=[{want:?}]");
+                return;
+            }
+        }
+        println!("NONE tried={}", progs.len());
         return;
     }
     if args.get(1).map(|s| s.as_str()) == Some("privacy-search") || args.get(1).map(|s| s.as_str()) == Some("privacy-run") {
